@@ -119,8 +119,13 @@ def fastaDel (f : Fasta) (h : Str) : Except Err Fasta :=
     | .ok es => .ok { f with lines := ls, entries := es }
     | .error e => .error e
 
-/-- `header.replace("\n", "").strip()`. -/
-def normHeader (h : Str) : Str := strip (h.filter (· ≠ '\n'))
+/-- the characters `str.splitlines()` breaks a line at. -/
+def isLineBreak (c : Char) : Bool :=
+  let n := c.toNat
+  (10 ≤ n && n ≤ 13) || (28 ≤ n && n ≤ 30) || n == 0x85 || n == 0x2028 || n == 0x2029
+
+/-- `"".join(header.splitlines()).strip()` (repaired: every line-break character is removed). -/
+def normHeader (h : Str) : Str := strip (h.filter (fun c => !isLineBreak c))
 
 def fastaNewLines (cpl : Nat) (h seq : Str) : List Str := ('>' :: h) :: wrap cpl seq
 
@@ -155,18 +160,18 @@ def fastaPrint (w : Nat) : List (Str × Str) → List Str
 /-- Two's-complement store into `int8`. -/
 def wrap8 (x : Int) : Int := (x + 128) % 256 - 128
 
-/-- `_scores_to_score_str` (repaired): `scores + offset` in int64, a value outside the ASCII range
-`0..127` is rejected (`ValueError`) instead of being wrapped into `int8`. -/
+/-- `_scores_to_score_str` (repaired): `scores + offset` in int64; a value that is not a printable,
+non-blank ASCII code (`'!'`..`'~'`, 33..126) is rejected with `ValueError` (it used to be cast to
+`int8`, and blanks / control characters / line breaks were written into the score line). -/
 def encodeScores (off : Int) (qs : List Int) : Except Err Str :=
   qs.mapM (fun q => let b := q + off
-                    if b < 0 ∨ 127 < b then .error .valueError else .ok (Char.ofNat b.toNat))
+                    if b < 33 ∨ 126 < b then .error .valueError else .ok (Char.ofNat b.toNat))
 
-/-- `_score_str_to_scores`: `frombuffer(bytearray(s, "ascii"), int8) - offset` (in `int8`);
-non-ASCII raises `UnicodeEncodeError`; an offset outside `int8` raises `OverflowError` (numpy 2). -/
+/-- `_score_str_to_scores` (repaired): ASCII code minus offset in the documented `int` type
+(it used to be computed in place in `int8`); non-ASCII raises `UnicodeEncodeError`. -/
 def decodeScores (off : Int) (s : Str) : Except Err (List Int) :=
   if s.any (fun c => c.toNat ≥ 128) then .error (.other "UnicodeEncodeError") else
-  if off < -128 ∨ off > 127 then .error .overflowError else
-  .ok (s.map (fun c => wrap8 ((c.toNat : Int) - off)))
+  .ok (s.map (fun c => (c.toNat : Int) - off))
 
 inductive QMode where
   | idle
